@@ -160,13 +160,10 @@ Definition gtf_read (prs : list N -> option N) (text : list N) : gtf_line_result
        end.
 
 (* the owning readers go through `impl feature::Record for gtf::Record`, whose attributes()
-   is `self.attributes().unwrap()`: an attribute parse error is a panic there *)
-Definition gtf_owned (l : lazy_feature) : res feature :=
-  owned_of_lazy {| l_seqid := l_seqid l; l_source := l_source l; l_type := l_type l;
-                   l_start := l_start l; l_end := l_end l; l_score := l_score l;
-                   l_strand := l_strand l; l_phase := l_phase l;
-                   l_attrs := (fst (l_attrs l),
-                               match snd (l_attrs l) with Some _ => Some Panic | None => None end) |}.
+   returns a view that yields the parse error when a field is accessed (repaired in /repo
+   f2d5d2d; before, it was `self.attributes().unwrap()`, a panic): the owned conversion fails
+   with that error, after the other columns *)
+Definition gtf_owned (l : lazy_feature) : res feature := owned_of_lazy l.
 
 (* the (key, item) pairs in writing order *)
 Definition gtf_pairs (a : list (list N * value)) : list (list N * list N) :=
